@@ -56,6 +56,7 @@ struct Side {
     // btls known finding: remember a refused send
     bool refused = false;
     uint32_t refused_tag = 0, refused_len = 0;
+    bool fault_injected = false; // a hard send() failure was scripted below this side: its connection may die of it
     bool refused_unretried = false; // ever: a btls send was refused and not retried with the identical buffer at once
     const char *kfq() const { return refused_unretried ? " [this sender had a btls send refused with EAGAIN that was not retried identically]" : ""; }
     bool last_recv_truncated = false;
@@ -415,7 +416,7 @@ struct Run {
                 VF_CHECK((e == EINVAL && len == 0) || (e == EMSGSIZE && len > 65535),
                          "C03: send(len=%u) failed with %s", len, errname(e));
             } else {
-                VF_CHECK(peer.ep.closed && errno_ok_after_peer_gone(e),
+                VF_CHECK((peer.ep.closed || sd.fault_injected) && errno_ok_after_peer_gone(e),
                          "C01: %s: xcm_send failed with %s while the peer is alive and nothing was injected%s",
                          sd.name, errname(e), sd.kfq());
                 sd.failed = true;
@@ -522,7 +523,7 @@ struct Run {
                 sd.failed = true;
             } else {
                 if (e == EAGAIN) break;
-                if (!(peer.ep.closed && errno_ok_after_peer_gone(e))) {
+                if (!((peer.ep.closed || sd.fault_injected) && errno_ok_after_peer_gone(e))) {
                     o = failf("C01: %s: xcm_receive failed with %s while the peer is alive and nothing was injected", sd.name, errname(e));
                     break;
                 }
@@ -544,7 +545,7 @@ struct Run {
         int rc = x_finish(sd.ep);
         int e = errno;
         if (rc < 0 && e != EAGAIN) {
-            VF_CHECK(s[1 - i].ep.closed && errno_ok_after_peer_gone(e),
+            VF_CHECK((s[1 - i].ep.closed || sd.fault_injected) && errno_ok_after_peer_gone(e),
                      "C01: %s: xcm_finish failed with %s while the peer is alive", sd.name, errname(e));
             sd.failed = true;
         }
@@ -567,6 +568,18 @@ struct Run {
             else sh_push(sd.ep.tag, (sh_dir)dir, SH_PASS, KS[prf_byte(seed, 100 + k) % (sizeof(KS) / sizeof(KS[0]))]);
         }
         c.log("%s script %s x%d style %d", sd.name, dir == SH_SEND ? "send" : "recv", n, style);
+        // now and then the scripted writes end in a hard failure of send(): the connection may die of
+        // it (then every later call says so and nothing more is delivered), but a message whose
+        // xcm_send failed must not arrive later on, and one that was accepted not twice
+        uint32_t hard = dd.raw();
+        if (hard % 8 == 1 && dir == SH_SEND && (tp == TCP || tp == BTCP) && !sd.ep.blocking && !s[1 - i].ep.blocking) {
+            static const int HE[] = {ENOBUFS, ENOMEM, ECONNRESET, ETIMEDOUT};
+            int he = HE[(hard >> 3) % 4];
+            sh_push(sd.ep.tag, SH_SEND, SH_FAIL, he);
+            sd.fault_injected = true;
+            c.cls("hard-send-failure-scripted");
+            c.log("%s   ... then one send() fails with %s", sd.name, errname(he));
+        }
     }
 
     bool all_delivered(int from)
@@ -799,6 +812,20 @@ public:
                 int rc = x_set_blocking(r.s[i].ep, false);
                 VF_CHECK(rc == 0, "xcm_set_blocking(false) failed: %s", errname(errno));
             }
+        // a connection that died of the scripted failure: the application gives it a few more calls
+        // (anything it still held must not come out now), then closes it
+        for (int i = 0; i < 2; i++) {
+            Side &sd = r.s[i];
+            if (!(sd.failed && sd.fault_injected) || sd.ep.closed) continue;
+            for (int k = 0; k < 5; k++) {
+                x_finish(sd.ep);
+                Outcome o = r.do_recv(1 - i, 70000);
+                if (!o.ok) return o;
+                usleep(200);
+            }
+            r.c.log("%s closes the connection that failed", sd.name);
+            x_close(sd.ep);
+        }
         bool both_alive = !r.s[0].ep.closed && !r.s[1].ep.closed;
         int idle = 0;
         double idle_since = -1;
@@ -819,7 +846,7 @@ public:
                 if (rc < 0) {
                     fin_ok[i] = false;
                     if (errno != EAGAIN) {
-                        VF_CHECK(r.s[1 - i].ep.closed && r.errno_ok_after_peer_gone(errno),
+                        VF_CHECK((r.s[1 - i].ep.closed || sd.fault_injected) && r.errno_ok_after_peer_gone(errno),
                                  "C01: %s: xcm_finish failed with %s during flush", sd.name, errname(errno));
                         sd.failed = true;
                         fin_ok[i] = true;
